@@ -45,7 +45,9 @@ Record config := {
   nseq : Z;                 (* sequences 0 .. nseq-1 exist (2 + number of channels) *)
   base : Z -> Z;            (* initially persisted = initial local position; for a channel without
                                storage record: the start of the first update pushed for it *)
-  tracked0 : Z -> bool;     (* channels with a storage record at startup *)
+  tracked0 : Z -> bool;     (* channels with a storage record and a worker at startup *)
+  dormant : Z -> bool;      (* channels with a storage record but no worker at startup (their
+                               access hash was missing when the state was loaded) *)
   (* the server's policy, arbitrary functions of the log, the horizon and the request:
      cutf log vis reqp reqq = (intermediate pts, intermediate qts, sliced?) of a common difference,
      tlf vis reqp           = answer updates.differenceTooLong?
@@ -126,8 +128,8 @@ Definition slice_cut2 (lim : Z) (log : list entry) (vis : Z -> Z) (reqp reqq : Z
   else (vis 0, vis 1, false).
 
 (* the policy of the harness's fake server: limits and thresholds *)
-Definition std_config (n : Z) (b : Z -> Z) (tr : Z -> bool) (sl tl csl ctl : Z) : config :=
-  {| nseq := n; base := b; tracked0 := tr;
+Definition std_config (n : Z) (b : Z -> Z) (tr dm : Z -> bool) (sl tl csl ctl : Z) : config :=
+  {| nseq := n; base := b; tracked0 := tr; dormant := dm;
      cutf := fun log vis rp rq => slice_cut2 sl log vis rp rq;
      tlf := fun vis rp => (0 <? tl) && (vis 0 - rp >? tl);
      ccutf := fun _ pp v => slice_cut csl pp v;
@@ -210,6 +212,10 @@ Definition push_item (c : config) (log : list entry) (vis : Z -> Z) (m : mgr) (e
   let s := eseq e in
   if (0 <=? s) && (s <? nseq c) then
     if (s <? 2) || mtracked m s then box_item m s e
+    else if dormant c s then
+      (* handleChannel, record found: worker from the stored pts, channel-subscribe difference,
+         then the update itself *)
+      box_item (chan_diff (fuel_of log) c log vis s (set_tracked m s)) s e
     else if ustart (upd_of e) =? base c s then
       (* handleChannel, no record yet: SetChannelPts(pts - count), new worker, channel-subscribe
          difference, then the update itself *)
@@ -250,7 +256,9 @@ Inductive mop :=
 | MChanTooLong (vis : Z -> Z) (s : Z)
 | MTimerCommon (vis : Z -> Z)
 | MTimerChan (vis : Z -> Z) (s : Z)
-| MStartup (vis : Z -> Z).
+| MStartup (vis : Z -> Z)
+| MFailCommon (vis : Z -> Z)             (* a getDifference whose RPC fails: gaps cleared, nothing else *)
+| MFailChan (vis : Z -> Z) (s : Z).      (* a channel getDifference whose RPC fails *)
 
 Definition chan_seqs (c : config) : list Z := map (fun i => 2 + Z.of_nat i) (seq 0 (Z.to_nat (nseq c - 2))).
 
@@ -266,6 +274,8 @@ Definition mstep (c : config) (log : list entry) (m : mgr) (o : mop) : mgr :=
   | MStartup vis =>
     fold_left (fun m s => chan_diff (fuel_of log) c log vis s m) (filter (tracked0 c) (chan_seqs c))
               (get_diff (fuel_of log) c log vis m)
+  | MFailCommon _ => clear_gaps (clear_gaps (clear_gaps m 0) 1) SEQ
+  | MFailChan _ s => if (2 <=? s) && (s <? nseq c) && mtracked m s then clear_gaps m s else m
   end.
 Definition mrun (c : config) (log : list entry) (ops : list mop) : mgr :=
   fold_left (mstep c log) ops (mgr_init c).
